@@ -285,7 +285,10 @@ class ManifestContext:
             audio_adps = self.calculate_audio_adaptation_sets(stream)
             text_adps = self.calculate_text_adaptation_sets(
                 stream, video.lang)
-        assert video is not None
+        if video is None or not video.representations:
+            # e.g. DRM requested for a stream that has no encrypted video
+            raise ValueError(
+                f'No video representation of stream {stream.directory} matches the request')
         if timing:
             opts.availabilityStartTime = timing.availabilityStartTime
             opts.timeShiftBufferDepth = timing.timeShiftBufferDepth
